@@ -417,7 +417,7 @@ Lemma timers_accept c used dls prefer upto fuel : forall s a tau,
     | Some T => forall x, In x (waiting (fst (fst s2))) -> (T < wdl x)%Z
     | None => waiting (fst (fst s2)) = []
     end /\
-    (match upto with Some T => (tau <= T)%Z -> (forall d, In d dls -> d <> T) -> (tau2 <= T)%Z /\ (tau <= tau2)%Z | None => True end).
+    (match upto with Some T => (tau < T)%Z -> (forall d, In d dls -> d <> T) -> (tau2 < T)%Z /\ (tau <= tau2)%Z | None => True end).
 Proof.
   induction fuel as [|f IH]; intros s a tau R Hlen; [lia|]. cbn [fire_timers_s].
   destruct (min_waiter (waiting (fst (fst s)))) as [x|] eqn:M.
@@ -434,7 +434,8 @@ Proof.
   destruct IH as (a2 & tau2 & Er & R2 & Hq & Hb).
   exists a2, tau2. split; [cbn [accept_run]; rewrite Ea; exact Er|]. split; [exact R2|]. split; [exact Hq|].
   destruct upto as [T|]; [|exact I]. intros HT Hgrid.
-  assert (HxT : (wdl x <= T)%Z) by lia.
+  assert (HxT : (wdl x < T)%Z).
+  { assert (Hd : In (wdl x) dls) by (apply (r_used _ _ _ _ _ _ R); exact Hx). specialize (Hgrid _ Hd). lia. }
   assert (Hxq : (tau < wdl x)%Z) by (apply (r_quiet _ _ _ _ _ _ R); exact Hx).
   destruct (Hb HxT Hgrid). lia.
 Qed.
@@ -465,9 +466,6 @@ Qed.
 
 Lemma meqb_refl m : meqb m m = true.
 Proof. unfold meqb. rewrite !N.eqb_refl. reflexivity. Qed.
-
-Definition sop_wf (op : sop) : Prop :=
-  match op with SAcq _ w _ | STry w | SRel w => m_wf w | _ => True end.
 
 Lemma rel_weaken_used c used used' dls a st tau :
   (forall i, In i used -> In i used') -> rel c used dls a st tau -> rel c used' dls a st tau.
@@ -690,4 +688,92 @@ Proof.
     refine (instant_rel c used used dls a st tau now _ _ st st [] [] [] [] R Ht Pop (r_held _ _ _ _ _ _ R) (r_cap _ _ _ _ _ _ R)
               (r_cap0 _ _ _ _ _ _ R) Pp Hnd0 (HW _ (mle_refl _)) Hov (trivial_drained c now st Hinv Hwk) (Permutation_refl _) _ Hinv Pu).
     intros H. now contradiction H.
+Qed.
+
+(* ---------- whole scripts ---------- *)
+
+Lemma accept_run_app l1 : forall a l2,
+  accept_run a (l1 ++ l2) = match accept_run a l1 with Some a' => accept_run a' l2 | None => None end.
+Proof.
+  induction l1 as [|r l1 IH]; intros a l2; cbn [app accept_run]; [reflexivity|].
+  destruct (accept_step a r); [apply IH | reflexivity].
+Qed.
+
+Lemma instant_s_accept c used dls prefer a s tau now op :
+  rel c used dls a (fst (fst s)) tau -> (tau < now)%Z -> (forall d, In d dls -> d <> now) ->
+  sop_wf op ->
+  match op with SAcq id w timeout => ~ In id used /\ ((0 < timeout)%Z -> In (now + timeout)%Z dls) | _ => True end ->
+  let used' := match op with SAcq id _ _ => id :: used | _ => used end in
+  let '(s1, l) := sim_instant_s prefer s now op in
+  exists a1, accept_run a l = Some a1 /\ rel c used' dls a1 (fst (fst s1)) now.
+Proof.
+  intros R Ht Hgrid Hwf Hfresh. cbn zeta. unfold sim_instant_s.
+  pose proof (timers_accept c used dls prefer (Some now) (S (length (waiting (fst (fst s))))) s a tau R (Nat.lt_succ_diag_r _)) as HT.
+  destruct (fire_timers_s prefer (S (length (waiting (fst (fst s))))) s (Some now)) as [s1 l].
+  destruct HT as (a2 & tau2 & Er & R2 & Hq & Hb). destruct (Hb Ht Hgrid) as [Ht2 _].
+  pose proof (op_instant c used dls prefer a2 s1 tau2 now op R2 Ht2 Hq Hwf Hfresh) as Hop. cbn zeta in Hop.
+  destruct (op_event now op) as [ev|].
+  - destruct Hop as (a' & Ea & R'). exists a'. split; [|exact R'].
+    rewrite accept_run_app, Er. cbn [accept_run]. now rewrite Ea.
+  - destruct Hop as (a' & Ea & R'). exists a'. split; [|exact R'].
+    rewrite accept_run_app, Er. cbn [accept_run]. now rewrite Ea.
+Qed.
+
+Lemma script_accept c dls prefer sc : forall s a tau used,
+  rel c used dls a (fst (fst s)) tau -> times_inc tau sc ->
+  NoDup (acq_ids sc) -> (forall i, In i (acq_ids sc) -> ~ In i used) ->
+  (forall x, In x sc -> sop_wf (snd x)) ->
+  (forall t id w timeout, In (t, SAcq id w timeout) sc -> (0 < timeout)%Z -> In (t + timeout)%Z dls) ->
+  (forall d x, In d dls -> In x sc -> fst x <> d) ->
+  exists a', accept_run a (sim_script_s prefer s sc) = Some a' /\ a_pend a' = [].
+Proof.
+  induction sc as [|[now op] sc IH]; intros s a tau used R Hinc Hnd Hfr Hwf Hdl Hgrid; cbn [sim_script_s].
+  - pose proof (timers_accept c used dls prefer None (S (length (waiting (fst (fst s))))) s a tau R (Nat.lt_succ_diag_r _)) as HT.
+    destruct (fire_timers_s prefer (S (length (waiting (fst (fst s))))) s None) as [s2 l]. cbn [snd].
+    destruct HT as (a2 & tau2 & Er & R2 & Hq & _). exists a2. split; [exact Er|].
+    pose proof (r_pend _ _ _ _ _ _ R2) as P. rewrite Hq in P. apply Permutation_sym in P. now apply Permutation_nil in P.
+  - destruct Hinc as [Ht Hinc'].
+    assert (Hfresh : match op with SAcq id w timeout => ~ In id used /\ ((0 < timeout)%Z -> In (now + timeout)%Z dls) | _ => True end).
+    { destruct op as [id w timeout| | | |]; try exact I. split.
+      - apply Hfr. cbn [acq_ids flat_map snd]. left. reflexivity.
+      - intros Hpos. eapply Hdl; [left; reflexivity | exact Hpos]. }
+    pose proof (instant_s_accept c used dls prefer a s tau now op R Ht
+                  (fun d Hd => not_eq_sym (Hgrid d (now, op) Hd (or_introl eq_refl)))
+                  (Hwf (now, op) (or_introl eq_refl)) Hfresh) as HI. cbn zeta in HI.
+    destruct (sim_instant_s prefer s now op) as [s1 l].
+    destruct HI as (a1 & Er & R1).
+    set (used' := match op with SAcq id _ _ => id :: used | _ => used end) in *.
+    assert (Hnd' : NoDup (acq_ids sc) /\ forall i, In i (acq_ids sc) -> ~ In i used').
+    { cbn [acq_ids flat_map snd] in Hnd, Hfr. fold (acq_ids sc) in Hnd, Hfr.
+      destruct op as [id w timeout| | | |]; cbn [app] in Hnd, Hfr; unfold used';
+        try (split; [exact Hnd | intros i Hi; apply Hfr; exact Hi]).
+      inversion Hnd as [|? ? Hni Hnd']; subst. split; [exact Hnd'|].
+      intros i Hi [E|Hu]; [subst; contradiction | exact (Hfr i (or_intror Hi) Hu)]. }
+    destruct Hnd' as [Hnd' Hfr'].
+    destruct (IH s1 a1 now used' R1 Hinc' Hnd' Hfr' (fun x Hx => Hwf x (or_intror Hx))
+                (fun t id w timeout Hx => Hdl t id w timeout (or_intror Hx))
+                (fun d x Hd Hx => Hgrid d x Hd (or_intror Hx))) as (a' & Er' & Hp').
+    exists a'. split; [|exact Hp']. rewrite accept_run_app, Er. exact Er'.
+Qed.
+
+Lemma pos_deadlines_in t id w timeout sc :
+  In (t, SAcq id w timeout) sc -> (0 < timeout)%Z -> In (t + timeout)%Z (pos_deadlines sc).
+Proof.
+  intros Hin Hpos. unfold pos_deadlines. apply in_flat_map. exists (t, SAcq id w timeout). split; [exact Hin|].
+  cbn [snd fst]. replace (0 <? timeout)%Z with true by lia. left. reflexivity.
+Qed.
+
+(* The acceptor accepts everything the model's replay scheduler does, for every well-formed script and
+   every order in which woken callers get the mutex. *)
+Theorem model_meets_spec c prefer t0 sc :
+  m_wf c -> script_wf t0 sc -> accept c (simulate_stream c prefer sc) = true.
+Proof.
+  intros Hc (Hinc & Hnd & Hwf & Hgrid). unfold accept, simulate_stream.
+  assert (R0 : rel c [] (pos_deadlines sc) (mkAS mzero c c [] None) (fst (fst (init c, @nil (Z * event), @nil sobs))) t0).
+  { cbn [fst]. constructor; cbn; auto.
+    - now apply inv_init. - constructor. - intros x []. - intros x []. - intros x []. }
+  destruct (script_accept c (pos_deadlines sc) prefer sc (init c, [], []) _ t0 [] R0 Hinc Hnd (fun i _ H => H) Hwf
+              (fun t id w timeout => pos_deadlines_in t id w timeout sc)
+              (fun d x Hd Hx => Hgrid d x Hd Hx)) as (a' & Er & Hp).
+  rewrite Er, Hp. reflexivity.
 Qed.
